@@ -6,7 +6,11 @@ props = [json.loads(l) for l in open(os.path.join(HERE, "properties.jsonl"))]
 TECH = "bounded symbolic execution of the real dataiter source over a symbolic NumPy model (z3: Bool+BitVec64+Float64), per-path obligation pc ∧ ¬property discharged unsat; counterexamples and one witness per path replayed on the real build"
 NOTE = ("Trusted base: the symnp NumPy model and the stubs listed in the evidence 'assumptions' (every explored path's witness is "
         "cross-checked against the real NumPy build), z3, the spec functions in vf/harness. Bounded: table sizes, dtypes and "
-        "argument ranges are listed per harness in evidence coverage.harnesses[*].bounds; nothing is claimed beyond them.")
+        "argument ranges are listed per harness in evidence coverage.harnesses[*].bounds; nothing is claimed beyond them. "
+        "Common to every check: the clause that a call leaves the package's default arguments and class-level containers unchanged. "
+        "Where a harness names probes (C08, C12, C13), extra solver-chosen inputs per path are run on the real build and judged by the "
+        "concrete spec: observations aimed at what the model cannot see into (uninterpreted reducers, compiled kernels, C serializers), "
+        "counted separately in the evidence, never part of the solver's verdict.")
 CLAIMED = {
  "C02": ("§6 C02", "For every frame with <= 3 (quick) / 4 (thorough) rows over the listed dtypes and for ALL cell values, masks, index vectors and n, each of the nine subsetting methods returns exactly the reference row-id list with bit-identical cells; decided by the solver per path, not sampled."),
  "C03": ("§6 C03", "For every frame within the bounds and ALL cell values, sort returns a permutation with identical cells, ordered lexicographically by the keys in the requested directions, stable, missing keys together (last when ascending), and does not raise; outside the two recorded known-finding regions."),
